@@ -94,6 +94,10 @@ func sendResultString(resp interface{}, err error) string {
 		render.Dyn(&b, reflect.ValueOf(resp))
 		return "payload " + b.String()
 	}
+	if resp != nil {
+		// "return the payload only when ... status Success": a payload beside an error is a payload returned for a non-success
+		return fmt.Sprintf("PAYLOAD-WITH-ERROR %T beside %v", resp, err)
+	}
 	if pe, ok := err.(kmip.Error); ok {
 		return fmt.Sprintf("failure %d %s", uint32(pe.ResultReason()), hx([]byte(err.Error())))
 	}
@@ -305,6 +309,9 @@ func runC14(r *Result, d *drv.Driver, tier string, seed int64, replay string) {
 	for i, c := range cases {
 		r.eval(lines[i], len(c.reply) > 8)
 		r.Stats["reply:"+c.kind]++
+		if strings.HasPrefix(reals[i], "PAYLOAD-WITH-ERROR") {
+			r.find(Finding{Kind: "violation", What: "Send returned a payload together with an error (the payload is for a Success reply only)", Input: map[string]string{"operation": fmt.Sprint(uint32(c.op)), "reply": hx(c.reply), "kind": c.kind, "discoverVersions": fmt.Sprint(c.dv)}, Expect: "(nil, error)", Actual: reals[i]})
+		}
 		r.Stats["result:"+classOf(reals[i])]++
 		if i%211 == 0 {
 			r.sample(map[string]string{"operation": fmt.Sprint(uint32(c.op)), "kind": c.kind, "reply": hx(c.reply)[:min(120, len(hx(c.reply)))], "real": reals[i][:min(100, len(reals[i]))]})
